@@ -10,6 +10,8 @@ pub mod c07;
 pub mod c08;
 pub mod c09;
 pub mod c10;
+pub mod c11;
+pub mod c12;
 pub mod c13;
 pub mod c14;
 pub mod c15;
@@ -35,6 +37,8 @@ pub fn all() -> Vec<CheckSpec> {
         c08::spec(),
         c09::spec(),
         c10::spec(),
+        c11::spec(),
+        c12::spec(),
         c13::spec(),
         c14::spec(),
         c15::spec(),
